@@ -45,7 +45,7 @@ PROPS = {
         "modes": [["sweep", "C12", "{seed}", "{tier}"]],
         "compare": ("params",),
         "nontrivial": nt_all,
-        "rule": "exhaustive: each of the 85 chains of <=3 transformations (all 32 (type,transformation) sites) x one setter out of 10 (usize 0/1/7, enum Auto/Max/Min/Exact) at every position; plus random 2-4 setters; params() and is_sequential() are read after the source and after EVERY call and compared with the model's Par.build prefix by prefix; distinct = distinct case text",
+        "rule": "exhaustive: each of the 117 chains (all 85 of <=3 transformations, i.e. all 32 (type,transformation) sites, plus every 8th chain of depth 4) x one setter out of 16 (usize 0/1/7/2^20/2^20+1, enum Auto/Max/Min/Exact incl. Min(2^40), Exact(2^32+5), Max(2^40)) at every position; plus random 2-4 setters; params() and is_sequential() are read after the source and after EVERY call and compared with the model's Par.build prefix by prefix; distinct = distinct case text",
         "explanation": "C12_params proves, by induction over any op list from the 32 site lemmas + setter lemmas, that params() is the last value set; the run ties Par.applyT's params to the real code on every site x setter position.",
         "trusted_base": TB_COMMON,
         "assumptions": ASSUME_COMMON,
@@ -85,7 +85,7 @@ PROPS = {
         "assumptions": ASSUME_COMMON,
     },
     "C01": result_prop("C01",
-        "random chains of 0..3 transformations (85 shapes, all 32 sites incl. eager ones) x {collect_vec, collect, collect_into(empty Vec/SplitVec/FixedVec)} x sources {Vec by value, exact-size iterator, unknown-size iterator} x random setters (NumThreads Auto/1..9, ChunkSize Auto/Exact/Min incl. len-1,len,len+1,2^20) at the source and mid-chain x inputs (len 0,1,2..70, some larger; distinct values 80%, duplicates 20%); half of the parallel single-phase cases run under the deterministic scheduler (families: reverse start order, last-spawned-first, one worker starved, workers ahead of the spawner, random); per case: outcome vs std oracle, outcome vs model prediction on the OBSERVED chunk assignment, Lean spec vs std oracle, observed assignment accepted (tiling + per-thread order); non-trivial = a runner ran and len>=2; distinct = distinct case text",
+        "random chains of 0..4 transformations (117 shapes: all 85 of depth <= 3 — all 32 sites incl. eager ones — plus every 8th of depth 4) x {collect_vec, collect, collect_into(empty Vec/SplitVec/FixedVec)} x sources {Vec by value, exact-size iterator, unknown-size iterator} x random setters (NumThreads Auto/1..9, ChunkSize Auto/Exact/Min incl. len-1,len,len+1,2^20) at the source and mid-chain x inputs (len 0,1,2..70, some larger; distinct values 80%, duplicates 20%); half of the parallel single-phase cases run under the deterministic scheduler (families: reverse start order, last-spawned-first, one worker starved, workers ahead of the spawner, random); per case: outcome vs std oracle, outcome vs model prediction on the OBSERVED chunk assignment, Lean spec vs std oracle, observed assignment accepted (tiling + per-thread order); non-trivial = a runner ran and len>=2; distinct = distinct case text",
         "C01_collect proves equality with the sequential chain for every accepted execution (any tiling, assignment, worker count, spawn order, chunk sizes); C01_every_schedule proves every schedule yields an accepted execution. The run validates the model: predicted = real outcome on the real assignment, and real assignments are accepted."),
     "C02": result_prop("C02",
         "as C01 with terminals find/first/any/all/find_with_index/first_with_index, predicates x%k==r with k in {1,2,3,5,7,11,50,1000,P} (0, 1, many matches; same and different chunks); 70% of parallel single-phase cases under the deterministic scheduler incl. the family where the last-spawned worker runs first / holds chunk 0; acceptance = every worker evaluated increasing positions and the evaluated set contains [0, least found position]",
@@ -128,7 +128,7 @@ PROPS = {
         "modes": [["sweep", "C16", "{seed}", "{tier}"]],
         "compare": ("eff", "params", "pred", "spec"),
         "nontrivial": nt_all,
-        "rule": "every one of the 85 chains of <=3 transformations (all 32 sites) on a 50-element source, with and without setters at random positions, Vec / exact / unknown-length sources; closure-call and source-consumption counters are read after the source conversion and after EVERY call; any non-zero increment before the terminal is attributed to its (type, transformation) site: the 8 listed eager sites print KNOWN-FINDING, anything else is a violation; the model's construction-effect counts are compared call by call",
+        "rule": "every one of the 117 chains (all 85 of <=3 transformations = all 32 sites, plus 32 of depth 4) on a 50-element and a 4-element source, with and without setters at random positions, Vec / exact / unknown-length sources; closure-call and source-consumption counters are read after the source conversion and after EVERY call; any non-zero increment before the terminal is attributed to its (type, transformation) site: the 8 listed eager sites print KNOWN-FINDING, anything else is a violation; the model's construction-effect counts are compared call by call",
         "explanation": "C16_lazy: chains avoiding the eager sites have no construction effects (induction over the chain from 24 lazy site lemmas); C16_eager_runs_upstream characterises the 8 eager sites.",
         "trusted_base": TB_COMMON,
         "assumptions": ASSUME_COMMON,
